@@ -1,10 +1,12 @@
 /- `.fai` rows: `splitWords`, `loadIndexLine`, `loadIndex` (C15/C17 warm = cold) -/
 import AgpTpf.Model.Cli
 import AgpTpf.Proofs.C05Int
+import AgpTpf.Proofs.C05Split
+import AgpTpf.Proofs.C05Header
 namespace AgpTpf.CliFai
 open AgpTpf AgpTpf.C05
 
-/-! ### `splitWords` -/
+/-! ### `splitWords` — `line.split()`, how `load_index` read a row BEFORE fix f770cde (kept to document the defect) -/
 
 theorem length_dropWhile_le {α} (p : α → Bool) (l : List α) : (l.dropWhile p).length ≤ l.length := by
   induction l with
@@ -140,8 +142,14 @@ theorem intToStr_no_space (i : Int) : ∀ c ∈ intToStr i, isSpace c = false :=
 
 /-! ### one row -/
 
-/-- a name usable in a `.fai` file: non-empty, no white-space character -/
-def NameOk (n : Str) : Prop := n ≠ [] ∧ ∀ c ∈ n, isSpace c = false
+/-- what the OLD reader (`line.split()`) needed of a name: non-empty, no `str.isspace` character -/
+def WordOk (n : Str) : Prop := n ≠ [] ∧ ∀ c ∈ n, isSpace c = false
+
+instance (n : Str) : Decidable (WordOk n) := by unfold WordOk; exact inferInstance
+
+/-- a name usable in a `.fai` file read by `line.rstrip("\n").split("\t")`: no tab; and no newline, so that the row
+    stays one line of the file.  (It may be empty and may contain blanks or any other white space.) -/
+def NameOk (n : Str) : Prop := '\t' ∉ n ∧ '\n' ∉ n
 
 instance (n : Str) : Decidable (NameOk n) := by unfold NameOk; exact inferInstance
 
@@ -150,7 +158,8 @@ theorem faiRow_eq (e : Str × FastaInfo) :
       (intToStr e.2.rpl ++ '\t' :: (intToStr e.2.mll ++ '\n' :: [])))) := by
   simp [faiRow, joinWith]
 
-theorem splitWords_faiRow (e : Str × FastaInfo) (h : NameOk e.1) :
+/-- the OLD reader on a written row -/
+theorem splitWords_faiRow (e : Str × FastaInfo) (h : WordOk e.1) :
     splitWords (faiRow e) =
       [e.1, intToStr e.2.length, intToStr e.2.fileOffset, intToStr e.2.rpl, intToStr e.2.mll] := by
   have ht : isSpace '\t' = true := by decide
@@ -163,11 +172,75 @@ theorem splitWords_faiRow (e : Str × FastaInfo) (h : NameOk e.1) :
     splitWords_word _ _ _ (intToStr_ne_nil _) (intToStr_no_space _) hn,
     splitWords_nil]
 
-theorem loadIndexLine_faiRow (e : Str × FastaInfo) (h : NameOk e.1) : loadIndexLine (faiRow e) = .ok e := by
+theorem intToStr_no_tab (i : Int) : '\t' ∉ intToStr i := by
+  intro h; have := intToStr_no_space i _ h; revert this; decide
+
+theorem intToStr_no_nl (i : Int) : '\n' ∉ intToStr i := by
+  intro h; have := intToStr_no_space i _ h; revert this; decide
+
+theorem rstripBy_append_one (p : Char → Bool) (s : Str) (c : Char) (hc : p c = true) :
+    rstripBy p (s ++ [c]) = rstripBy p s := by
+  unfold rstripBy
+  rw [List.reverse_append, List.reverse_singleton, List.singleton_append, List.dropWhile_cons, if_pos hc]
+
+def rowFields (e : Str × FastaInfo) : List Str :=
+  [e.1, intToStr e.2.length, intToStr e.2.fileOffset, intToStr e.2.rpl, intToStr e.2.mll]
+
+theorem faiRow_fields (e : Str × FastaInfo) : faiRow e = joinWith '\t' (rowFields e) ++ ['\n'] := rfl
+
+/-- `rstrip("\n")` removes exactly the row's terminator: the last column ends in a digit -/
+theorem rstrip_faiRow (e : Str × FastaInfo) :
+    rstripBy (· == '\n') (faiRow e) = joinWith '\t' (rowFields e) := by
+  rw [faiRow_fields, rstripBy_append_one _ _ _ (by decide)]
+  apply rstripBy_eq_self
+  intro x hx
+  have hj : joinWith '\t' (rowFields e) =
+      (e.1 ++ '\t' :: (intToStr e.2.length ++ '\t' :: (intToStr e.2.fileOffset ++ '\t' :: (intToStr e.2.rpl ++ ['\t'])))) ++
+        intToStr e.2.mll := by
+    simp [rowFields, joinWith]
+  rw [hj, List.getLast?_append] at hx
+  cases hl : (intToStr e.2.mll).getLast? with
+  | none =>
+    have := List.getLast?_eq_none_iff.1 hl
+    exact absurd this (intToStr_ne_nil _)
+  | some y =>
+    rw [hl] at hx
+    have hxy : y = x := Option.some.inj hx
+    subst hxy
+    have hy : y ∈ intToStr e.2.mll := List.mem_of_getLast? hl
+    have hne : y ≠ '\n' := fun h => intToStr_no_nl e.2.mll (h ▸ hy)
+    simpa using hne
+
+/-- the NEW reader on a written row: only a tab inside the name can disturb it -/
+theorem splitFaiLine_faiRow (e : Str × FastaInfo) (h : '\t' ∉ e.1) : splitFaiLine (faiRow e) = rowFields e := by
+  unfold splitFaiLine
+  rw [rstrip_faiRow]
+  apply splitOnChar_joinWith _ _ (by simp [rowFields])
+  intro f hf
+  simp only [rowFields, List.mem_cons, List.not_mem_nil, or_false] at hf
+  rcases hf with rfl | rfl | rfl | rfl | rfl
+  · exact h
+  all_goals exact intToStr_no_tab _
+
+theorem loadIndexLine_faiRow (e : Str × FastaInfo) (h : '\t' ∉ e.1) : loadIndexLine (faiRow e) = .ok e := by
   unfold loadIndexLine
-  rw [splitWords_faiRow e h]
-  simp only [pyInt_intToStr]
+  rw [splitFaiLine_faiRow e h]
+  simp only [rowFields, pyInt_intToStr]
   rfl
+
+/-- columns never contain a tab -/
+theorem splitFaiLine_no_tab (line : Str) : ∀ f ∈ splitFaiLine line, '\t' ∉ f :=
+  not_mem_of_mem_splitOnChar '\t' _
+
+/-- a written row is one complete line of the file when the name has no newline -/
+theorem faiRow_lineOk (e : Str × FastaInfo) (h : '\n' ∉ e.1) : LineOk (faiRow e) := by
+  refine ⟨joinWith '\t' (rowFields e), faiRow_fields e, ?_⟩
+  apply joinWith_no_sep_mem '\t' '\n' _ (by decide)
+  intro f hf
+  simp only [rowFields, List.mem_cons, List.not_mem_nil, or_false] at hf
+  rcases hf with rfl | rfl | rfl | rfl | rfl
+  · exact h
+  all_goals exact intToStr_no_nl _
 
 /-! ### `pyInt` only raises `ValueError` -/
 
@@ -197,7 +270,7 @@ theorem loadIndexLine_error (line : Str) (e : Err) (h : loadIndexLine line = .er
 
 theorem loadIndexLine_ok_iff (line : Str) (e : Str × FastaInfo) :
     loadIndexLine line = .ok e ↔
-      ∃ a b c d, splitWords line = [e.1, a, b, c, d] ∧ pyInt a = .ok e.2.length ∧ pyInt b = .ok e.2.fileOffset ∧
+      ∃ a b c d, splitFaiLine line = [e.1, a, b, c, d] ∧ pyInt a = .ok e.2.length ∧ pyInt b = .ok e.2.fileOffset ∧
         pyInt c = .ok e.2.rpl ∧ pyInt d = .ok e.2.mll := by
   constructor
   · intro h
@@ -225,7 +298,7 @@ theorem loadIndexLine_ok_iff (line : Str) (e : Str × FastaInfo) :
     simp only [ha, hb, hc, hd]
     rfl
 
-theorem loadIndexLine_wrong_count (line : Str) (h : (splitWords line).length ≠ 5) :
+theorem loadIndexLine_wrong_count (line : Str) (h : (splitFaiLine line).length ≠ 5) :
     loadIndexLine line = .error .value := by
   unfold loadIndexLine
   split
@@ -249,7 +322,7 @@ def loadStep (acc : List (Str × FastaInfo)) (l : Str) : R (List (Str × FastaIn
 theorem loadIndex_eq (lines : List Str) : loadIndex lines = lines.foldlM loadStep [] := rfl
 
 theorem foldlM_loadStep_rows (acc es : List (Str × FastaInfo))
-    (hok : ∀ e ∈ es, NameOk e.1) (hd : ((acc ++ es).map Prod.fst).Pairwise (· ≠ ·)) :
+    (hok : ∀ e ∈ es, '\t' ∉ e.1) (hd : ((acc ++ es).map Prod.fst).Pairwise (· ≠ ·)) :
     (es.map faiRow).foldlM loadStep acc = .ok (acc ++ es) := by
   induction es generalizing acc with
   | nil => simp [List.foldlM_nil]; rfl
@@ -287,7 +360,7 @@ theorem foldlM_loadStep_error (acc : List (Str × FastaInfo)) (lines : List Str)
       · rw [hx] at he; cases he
       · exact ih _ hmem
 
-/-! ### evaluation by kernel reduction (`splitWords` is well-founded, so `rfl` / `decide` need a structural twin) -/
+/-! ### evaluating the OLD reader by kernel reduction (`splitWords` is well-founded, so `rfl` / `decide` need a structural twin) -/
 
 def splitWordsF : Nat → Str → List Str
   | 0, _ => []
@@ -312,37 +385,5 @@ theorem splitWords_fuel (n : Nat) (s : Str) (h : s.length ≤ n) : splitWords s 
       have h2 : (a :: r).length ≤ s.length := by rw [← ht]; exact length_dropWhile_le _ _
       simp only [List.isEmpty_cons, Bool.false_eq_true, if_false]
       rw [ih _ (by omega)]
-
-def loadIndexLineF (n : Nat) (line : Str) : R (Str × FastaInfo) :=
-  match splitWordsF n line with
-  | [n, a, b, c, d] => do
-    let l ← pyInt a; let o ← pyInt b; let r ← pyInt c; let m ← pyInt d
-    pure (n, { length := l, fileOffset := o, rpl := r, mll := m })
-  | _ => .error .value
-
-theorem loadIndexLine_fuel (n : Nat) (line : Str) (h : line.length ≤ n) : loadIndexLine line = loadIndexLineF n line := by
-  unfold loadIndexLine loadIndexLineF; rw [splitWords_fuel n line h]
-  split <;> split <;> simp_all
-  all_goals (have hx := ‹∀ (n a b c d : Str), _›; exact absurd rfl (hx _ _ _ _ _ rfl rfl rfl rfl))
-
-def loadIndexF (n : Nat) (lines : List Str) : R (List (Str × FastaInfo)) :=
-  lines.foldlM (fun acc l => do let e ← loadIndexLineF n l; pure (dSet acc e.1 e.2)) []
-
-theorem foldlM_congr_mem {α β} (f g : β → α → R β) (l : List α) (b : β) (h : ∀ a ∈ l, ∀ b, f b a = g b a) :
-    l.foldlM f b = l.foldlM g b := by
-  induction l generalizing b with
-  | nil => rfl
-  | cons x xs ih =>
-    rw [List.foldlM_cons, List.foldlM_cons, h x (by simp) b]
-    cases g b x with
-    | error e => rfl
-    | ok y => exact ih y (fun a ha => h a (by simp [ha]))
-
-theorem loadIndex_fuel (n : Nat) (lines : List Str) (h : ∀ l ∈ lines, l.length ≤ n) :
-    loadIndex lines = loadIndexF n lines := by
-  unfold loadIndex loadIndexF
-  apply foldlM_congr_mem
-  intro l hl acc
-  rw [loadIndexLine_fuel n l (h l hl)]
 
 end AgpTpf.CliFai
